@@ -1,7 +1,6 @@
 package c15
 
 import (
-	"fmt"
 	"strings"
 	"testing"
 
@@ -87,33 +86,29 @@ func TestScenarios(t *testing.T) {
 	}
 }
 
-// TestKnownBoundChildWindow re-runs the minimal inputs of the known finding
-// sigBoundChildWindow WITHOUT the by-construction exclusion. It always passes unless a
-// DIFFERENT violation shows up, and prints one KNOWN-REPRODUCED line iff the defect is still
-// there (the driver turns it into a KNOWN-FINDING line).
-func TestKnownBoundChildWindow(t *testing.T) {
+// TestRegBoundChildWindow: minimal inputs of the defect this check found (fixed in /repo by
+// 1acf2ec, proposed_fix_2.diff): deleter.deleteBoundChildren removes a bound child's storage
+// before the child has a deleted status; a head update / put / fetch for the child right after
+// TreeManager.DeleteTree(child) returned recreated it and it ended up Deleted with its changes
+// stored. Runs with the by-construction exclusion of the former known finding switched off.
+func TestRegBoundChildWindow(t *testing.T) {
 	outerT = t
 	noExclusion = true
 	defer func() { noExclusion = false }()
-	reproduced := ""
+	n := 0
 	for _, sc := range scenarios {
 		if !strings.HasPrefix(sc.name, "bound-child-window") {
 			continue
 		}
-		_, err := run(sc.c)
-		if err == nil {
-			continue
-		}
-		msg := strings.SplitN(err.Error(), "\n", 2)[0]
-		if windowExercised && strings.Contains(msg, "has status Deleted but") && strings.Contains(msg, "child-of-") {
-			if reproduced == "" {
-				reproduced = sc.name + ": " + msg
+		n++
+		t.Run(sc.name, func(t *testing.T) {
+			vstat.One(t, prop, sc.c, run)
+			if !windowExercised {
+				t.Errorf("%s did not reach the window between DeleteTree(child) and state.Delete(child)", sc.name)
 			}
-			continue
-		}
-		t.Errorf("%s: a violation other than the known finding: %v", sc.name, err)
+		})
 	}
-	if reproduced != "" {
-		fmt.Printf("KNOWN-REPRODUCED property=%s signature=%s %s\n", prop, sigBoundChildWindow, reproduced)
+	if n == 0 {
+		t.Fatal("no bound-child-window scenario")
 	}
 }
